@@ -55,6 +55,11 @@ func newRollout(cfg rolloutCfg, caseID string) *rollout {
 		Kinds: []kindCfg{{Kind: cfg.Kind, Method: cfg.Method, StatusCheck: cfg.StatusCheck}}}
 	if cfg.FieldPaths {
 		sc.FieldPaths = []string{"spec.template"}
+		if h := sim.Hash(caseID); h[0] >= '8' {
+			// several field paths, some of which this parent never sets (optional fields listed
+			// before and after the one that changes)
+			sc.FieldPaths = []string{"spec.podAnnotations", "spec.template", "spec.neverSet.deep"}
+		}
 	}
 	for i := 0; i < cfg.N; i++ {
 		sc.Kids = append(sc.Kids, kidCfg{Kind: cfg.Kind, Name: fmt.Sprintf("c%d-%s", i, uid), Value: "v1"})
